@@ -161,10 +161,10 @@ Proof. vm_compute. discriminate. Qed.
 (* ---- 2. SkipChilds ---- *)
 Section TreeInd.
   Variable P : tree -> Prop.
-  Hypothesis H : forall p h ks, Forall P ks -> P (T p h ks).
+  Hypothesis H : forall p w h ks, Forall P ks -> P (T p w h ks).
   Fixpoint tree_ind' (t : tree) : P t :=
     match t with
-    | T p h ks => H p h ks ((fix f (l : list tree) : Forall P l :=
+    | T p w h ks => H p w h ks ((fix f (l : list tree) : Forall P l :=
                                match l with [] => Forall_nil _ | k :: r => Forall_cons _ (tree_ind' k) (f r) end) ks)
     end.
 End TreeInd.
@@ -183,7 +183,7 @@ Qed.
 (* the flag is consumed: after any subtree it is false again *)
 Lemma walk_tree_flag : forall t fl, fst (walk_tree fl t) = false.
 Proof.
-  induction t as [p h ks IH] using tree_ind'. intros fl. simpl.
+  induction t as [p w h ks IH] using tree_ind'. intros fl. simpl.
   destruct (fl || h); [reflexivity|].
   pose proof (walk_kids_flag walk_tree ks IH) as HK.
   destruct (walk_kids walk_tree false ks). simpl in *. exact HK.
@@ -205,8 +205,8 @@ Proof.
 Qed.
 
 (* if skipChilds() stopped clearing the flag, a finding in one file would hide nested findings of the next *)
-Definition sk_file_a : file := [DFunc 1 false None (Some [SExpr (T 2 true [])]) []].
-Definition sk_file_b : file := [DFunc 1 false None (Some [SExpr (T 2 false [T 3 true []])]) []].
+Definition sk_file_a : file := [DFunc 1 false None (Some [SExpr (T 2 true true [])]) []].
+Definition sk_file_b : file := [DFunc 1 false None (Some [SExpr (T 2 false false [T 3 true true []])]) []].
 Lemma sk_noreset_history_dependent :
   let run := fun (_ : unit) fl f => walk sk_on_decl_noreset fl f in
   result_after false run [(tt, sk_file_a)] tt sk_file_b <> result_fresh false run tt sk_file_b.
@@ -349,11 +349,11 @@ Qed.
 Lemma walk_tree_shift k : forall t fl,
   walk_tree fl (shift_tree k t) = (fst (walk_tree fl t), map (shift_w k) (snd (walk_tree fl t))).
 Proof.
-  induction t as [p h ks IH] using tree_ind'. intros fl. simpl.
+  induction t as [p w h ks IH] using tree_ind'. intros fl. simpl.
   destruct (fl || h).
-  - destruct h; reflexivity.
-  - rewrite (walk_kids_shift k ks IH). destruct (walk_kids walk_tree false ks) as [f w]. simpl.
-    rewrite map_app. destruct h; reflexivity.
+  - destruct w; reflexivity.
+  - rewrite (walk_kids_shift k ks IH). destruct (walk_kids walk_tree false ks) as [f w0]. simpl.
+    rewrite map_app. destruct w; reflexivity.
 Qed.
 
 Lemma sk_equivariant : equivariant sk_on_decl shift_decl.
@@ -438,6 +438,14 @@ Proof.
   intros [i p n a] [i' p' n' a']. unfold link_eqb. simpl. rewrite !andb_true_iff, !N.eqb_eq.
   intros [[[-> ->] H1] H2]. apply beqb_sound in H1. apply (opt_eqb_eq _ pk_eqb_sound) in H2. subst. reflexivity.
 Qed.
+Lemma tree_eqb_sound : forall a b, tree_eqb a b = true -> a = b.
+Proof.
+  induction a as [p w s ks IH] using tree_ind'. intros [p' w' s' ks']. simpl. rewrite !andb_true_iff.
+  intros [[[H1 H2] H3] H4]. apply neqb_sound in H1. apply beqb_sound in H2. apply beqb_sound in H3. subst.
+  f_equal. revert ks' H4. induction ks as [|x r IHr]; intros [|y r'] H4; try discriminate; auto.
+  inversion IH as [|? ? Hx Hr]; subst. apply andb_true_iff in H4. destruct H4 as [E1 E2].
+  f_equal; [apply Hx; exact E1|apply IHr; assumption].
+Qed.
 Lemma stmt_eqb_sound : forall a b, stmt_eqb a b = true -> a = b.
 Proof.
   intros [l e|p c|p g h|p w ks|t] [l' e'|p' c'|p' g' h'|p' w' ks'|t']; simpl; try discriminate; rewrite ?andb_true_iff.
@@ -445,6 +453,7 @@ Proof.
   - intros [H1 H2]. apply neqb_sound in H1. apply (list_eqb_sound _ pk_eqb_sound) in H2. subst. reflexivity.
   - intros [[H1 H2] H3]. apply neqb_sound in H1. apply beqb_sound in H2. apply (list_eqb_sound _ beqb_sound) in H3. subst. reflexivity.
   - intros [[H1 H2] H3]. apply neqb_sound in H1. apply (opt_eqb_eq _ neqb_sound) in H2. apply (list_eqb_sound _ pk_eqb_sound) in H3. subst. reflexivity.
+  - intros H. apply tree_eqb_sound in H. subst. reflexivity.
 Qed.
 Lemma comment_eqb_sound : forall a b, comment_eqb a b = true -> a = b.
 Proof.
@@ -502,3 +511,30 @@ Section PredictSound.
   Lemma predict_sound : forall ds ds' tags ws, predict on_decl s0 ds ds' tags = Some ws -> snd (walk on_decl s0 ds') = ws.
   Proof. intros ds ds' tags ws H. rewrite (walk_flat on_decl I L s0 I0 ds' s0 I0). exact (predict_flat ds ds' tags ws H). Qed.
 End PredictSound.
+
+(* ---- the type-expression walker variant of the SkipChilds protocol (typeUnparen) ---- *)
+Lemma skt_local : decl_local skt_on_decl (fun fl => fl = false).
+Proof.
+  split.
+  - intros s [p ex r [b|] cs|p ns|p b'] Hs; simpl; auto; apply sk_visit_all_flag; exact Hs.
+  - intros s s' d -> ->. reflexivity.
+Qed.
+Lemma skt_equivariant : equivariant skt_on_decl shift_decl.
+Proof.
+  apply (expr_on_decl_equivariant_rel _ eq); auto.
+  intros k a c [ls e|p cs|p g hs|p ws ks|t] ->; simpl; auto.
+  rewrite walk_tree_shift. auto.
+Qed.
+
+Lemma skt_checker_visits_fresh : forall buf h,
+  visits (buf, false) (check skt_run) h = map (fun cf => result_fresh (buf, false) (check skt_run) (fst cf) (snd cf)) h.
+Proof.
+  intros buf h.
+  apply (visits_fresh (buf, false) (check skt_run) (fun bs => snd bs = false)).
+  - reflexivity.
+  - intros c [b s] f Hs. simpl in Hs. subst. unfold check. simpl.
+    pose proof (walk_inv _ _ skt_local f false eq_refl) as HI. unfold skt_run.
+    destruct (walk skt_on_decl false f) as [s' ws]. simpl in *. exact HI.
+  - intros c [b s] [b' s'] f Hs Hs'. simpl in Hs, Hs'. subst. unfold check. simpl.
+    destruct (skt_run c false f). reflexivity.
+Qed.
